@@ -893,7 +893,14 @@ def run(ctx):
         from ..lib.core import REPO
 
         ex = c15.extract((REPO / "src" / "darsia" / "utils" / "quadrature.py").read_text())
-        ctx.write_gen("QuadratureTables", c15.emit(ex, c15.tabulate_corners(d)))
+        # the consumer table (which rule each L1 mode sums over) is part of the same generated file
+        try:
+            l1 = c15.extract_l1((REPO / "src" / "darsia" / "measure" / "wasserstein.py").read_text())
+        except Exception:  # noqa: BLE001 - same fallback as C15: keep the committed consumer table
+            from ..lib.core import LEAN
+
+            l1 = c15.parse_committed_l1((LEAN / "DarsiaGen" / "QuadratureTables.lean").read_text())
+        ctx.write_gen("QuadratureTables", c15.emit(ex, c15.tabulate_corners(d), l1))
         ctx.cov["quadrature_tables"] = "re-extracted from the current source (C15 generator)"
     except Exception as e:  # noqa: BLE001
         ctx.cov["quadrature_tables"] = f"committed table kept ({type(e).__name__}: {str(e)[:120]})"
